@@ -510,6 +510,70 @@ pub fn eval_many(c: &Many) -> Vec<Finding> {
 }
 
 // ------------------------------------------------------------------------------------------
+// a long-lived receiver: after any number of completed messages the handler reassembles the next
+// one like a fresh handler does (no budget, counter or table that fills up over its lifetime)
+pub fn eval_long_lived(messages: usize) -> Vec<Finding> {
+    let case = json!({"long_lived": {"messages": messages}});
+    let r = par::catch(|| -> Result<Option<String>, String> {
+        let lens = [58usize, 117, 60, 1, 176, 59];
+        let chans = [0x0c0c_0001u32, 0x0c0c_0002, 0x7fff_fff0];
+        // pre-built wires per (channel, length)
+        let mut wires: Vec<Vec<(Vec<Vec<u8>>, Vec<u8>)>> = vec![];
+        for (ci, ch) in chans.iter().enumerate() {
+            let mut per = vec![];
+            for (li, l) in lens.iter().enumerate() {
+                let payload: Vec<u8> = (0..*l).map(|i| (i as u8).wrapping_mul(5).wrapping_add((ci * 8 + li) as u8)).collect();
+                let w = send(*ch, Command::Cbor, &payload)?.ok_or("harness: sender refused a short message")?;
+                per.push((w.chunks(64).map(|p| p.to_vec()).collect::<Vec<_>>(), payload));
+            }
+            wires.push(per);
+        }
+        let big: Vec<u8> = (0..7608usize).map(|i| (i % 251) as u8).collect();
+        let big_wire: Vec<Vec<u8>> = send(0x0d0d_0009, Command::Cbor, &big)?.ok_or("harness: sender refused the 7608-byte message")?.chunks(64).map(|p| p.to_vec()).collect();
+        let mut h = ChannelHandler::default();
+        let probe_at: Vec<usize> = (0..).map(|k| 1usize << k).take_while(|n| *n < messages).chain([messages]).collect();
+        for m in 0..=messages {
+            if probe_at.contains(&m) {
+                // the maximal message, after m completed messages
+                let mut got = None;
+                for (i, p) in big_wire.iter().enumerate() {
+                    let r = h.handle_packet(p);
+                    if i + 1 < big_wire.len() && r.is_some() {
+                        return Ok(Some(format!("after {m} completed messages: the 7608-byte message was delivered early (packet {i})")));
+                    }
+                    got = r;
+                }
+                match got {
+                    Some(x) if x.payload == big && x.channel == 0x0d0d_0009 => {}
+                    Some(_) => return Ok(Some(format!("after {m} completed messages: the 7608-byte message was delivered altered"))),
+                    None => return Ok(Some(format!("after {m} completed messages on this handler a 7608-byte message is no longer delivered (a fresh handler delivers it)"))),
+                }
+            }
+            if m == messages {
+                break;
+            }
+            let (ps, payload) = &wires[m % chans.len()][(m / chans.len()) % lens.len()];
+            let mut got = None;
+            for p in ps {
+                got = h.handle_packet(p);
+            }
+            match got {
+                Some(x) if x.payload == *payload => {}
+                Some(_) => return Ok(Some(format!("message #{m} ({} bytes) was delivered altered", payload.len()))),
+                None => return Ok(Some(format!("message #{m} ({} bytes, {} packets) was not delivered although {m} earlier messages on this handler were", payload.len(), ps.len()))),
+            }
+        }
+        Ok(None)
+    });
+    match r {
+        Err(p) => vec![Finding::new(format!("long-lived/kind=panic/site={}", par::panic_site(&p)), p, case)],
+        Ok(Err(e)) => vec![Finding::new("long-lived/kind=harness", e, case)],
+        Ok(Ok(Some(d))) => vec![Finding::new("long-lived/kind=message-lost", d, case)],
+        Ok(Ok(None)) => vec![],
+    }
+}
+
+// ------------------------------------------------------------------------------------------
 // every command with short payloads of every value class on one channel, against traffic on
 // another: a complete message of any command on channel A - whatever its payload says - does not
 // make the receiver lose, delay or alter the messages of channel B or the next message of A.
@@ -797,6 +861,12 @@ pub fn run(ctx: &Ctx) -> Result<Run, String> {
         st.findings_from(eval_many(c));
     });
     stats.merge(mc_stats);
+    {
+        let n = ctx.tier.pick(600_000usize, 6_000_000);
+        stats.case(&("long-lived", n), true, "long-lived-handler");
+        stats.count("long_lived_messages", n as u64);
+        stats.findings_from(eval_long_lived(n));
+    }
     let cc = cross_cases();
     let cc_stats = par::sweep_cases(&cc, ctx.threads, |c, st| {
         st.case(c, true, "cross-command");
@@ -832,7 +902,7 @@ pub fn run(ctx: &Ctx) -> Result<Run, String> {
     stats.samples.push(json!({"starve": sv[sv.len() / 2]}));
     let mut run = Run::from_stats(
         "model_checking",
-        "single channel: every payload length 0..7700 and 65535/65536/70000 (all 9 commands x 4 channel ids at the boundary lengths, rotating command/channel and 3 content patterns elsewhere): written into a Vec and into a writer that only implements write/flush (same bytes); written bytes parsed by the harness (64-byte packets, header layout, sequence numbers, zero padding, packet count) and fed to a fresh receiver, and the message the receiver delivers is sent again (must be written as the same packets); interleavings: stateright BFS whose state is the real ChannelHandler (cloned via the verif hook) plus the next-packet index per stream, over all combinations of 2, 3 and 4 concurrently transmitting channels with payload lengths from {0,57,58,116,117,175,234} (1..4 packets; thorough adds streams of 5 and 6 packets for 2 and 3 channels), channels sending two messages back to back, and one stray continuation packet for an idle channel at any point; deduplicated on (indices, hook snapshot); run twice with different thread counts; cross-checked by a hook-free enumeration of all complete interleavings for 2 and 3 channels; many channels: 1..300 (thorough 4096) channels each start a two-packet message (the first optionally twice) and then complete, in channel order and in reverse – every message is delivered; commands across channels: a complete message of each of the 9 commands with 14 short payloads (empty, single bytes 0/1/2/5/10/11/0x7f/0xff, pairs, 4, 8 and 17 bytes) on one channel before, inside or twice before a two-packet message of another channel (also the broadcast channel), followed by a further message of the first channel - every message is delivered, unaltered, by its own last packet; failing writers: a write call fails at any of the first eight / last two packets with five error kinds, once or from then on – success is never reported for a message the writer did not receive in full and in order; starvation: a 3-packet message held back after its first / second packet while other channels send every number of packets 0..300 (thorough 0..1100) and 1024, 2048, 4096, 10000 as whole messages in three traffic shapes (maximal messages, two channels alternating single packets, 2-packet messages), each of which must be delivered too",
+        "single channel: every payload length 0..7700 and 65535/65536/70000 (all 9 commands x 4 channel ids at the boundary lengths, rotating command/channel and 3 content patterns elsewhere): written into a Vec and into a writer that only implements write/flush (same bytes); written bytes parsed by the harness (64-byte packets, header layout, sequence numbers, zero padding, packet count) and fed to a fresh receiver, and the message the receiver delivers is sent again (must be written as the same packets); interleavings: stateright BFS whose state is the real ChannelHandler (cloned via the verif hook) plus the next-packet index per stream, over all combinations of 2, 3 and 4 concurrently transmitting channels with payload lengths from {0,57,58,116,117,175,234} (1..4 packets; thorough adds streams of 5 and 6 packets for 2 and 3 channels), channels sending two messages back to back, and one stray continuation packet for an idle channel at any point; deduplicated on (indices, hook snapshot); run twice with different thread counts; cross-checked by a hook-free enumeration of all complete interleavings for 2 and 3 channels; many channels: 1..300 (thorough 4096) channels each start a two-packet message (the first optionally twice) and then complete, in channel order and in reverse – every message is delivered; a long-lived receiver: 600 000 (thorough 6 000 000) completed messages of 1..3 packets on three channels through ONE handler, each delivered unaltered, and after 1, 2, 4, ... and all of them the maximal 7608-byte message is still reassembled; commands across channels: a complete message of each of the 9 commands with 14 short payloads (empty, single bytes 0/1/2/5/10/11/0x7f/0xff, pairs, 4, 8 and 17 bytes) on one channel before, inside or twice before a two-packet message of another channel (also the broadcast channel), followed by a further message of the first channel - every message is delivered, unaltered, by its own last packet; failing writers: a write call fails at any of the first eight / last two packets with five error kinds, once or from then on – success is never reported for a message the writer did not receive in full and in order; starvation: a 3-packet message held back after its first / second packet while other channels send every number of packets 0..300 (thorough 0..1100) and 1024, 2048, 4096, 10000 as whole messages in three traffic shapes (maximal messages, two channels alternating single packets, 2-packet messages), each of which must be delivered too",
         true,
         stats,
     );
@@ -847,6 +917,9 @@ pub fn replay(_ctx: &Ctx, case: &Value) -> Result<Vec<Finding>, String> {
     if let Some(m) = case.get("many_channels") {
         let c: Many = serde_json::from_value(m.clone()).map_err(|e| format!("bad C16 case: {e}"))?;
         return Ok(eval_many(&c));
+    }
+    if let Some(m) = case.get("long_lived") {
+        return Ok(eval_long_lived(m["messages"].as_u64().unwrap_or(0) as usize));
     }
     if let Some(m) = case.get("cross_command") {
         let c: Cross = serde_json::from_value(m.clone()).map_err(|e| format!("bad C16 case: {e}"))?;
